@@ -2003,7 +2003,8 @@ func runC17(c *ctx) {
 //   - judged by the oracle: for every position handed to TEIGetMove the engine process must receive a `position tps` line that
 //     declares exactly that position - squares, side to move AND move number (class client-position-line-wrong) - followed by the
 //     go line that carries the deadline and the four clock values in whole milliseconds (client-go-line-wrong); a clean
-//     `bestmove <move>` answer must come back as that move (client-move-wrong);
+//     `bestmove <move>` answer must come back as that move (client-move-wrong); a player of an earlier game is refused
+//     before anything is written (client-dead-player);
 //   - a model case: the lines the client wrote and what every call returned (move / error class / panic class / hang) = L1,
 //     compared with the extracted coq/TeiClient.v run against the same engine answers (or against Tei.v + TeiInst.v for the real
 //     engine).
@@ -2019,6 +2020,7 @@ type c17Sess struct {
 	goAns  []string  // per P/Q/M item: the clean move text the engine was told to answer with ("" = no demand)
 	cut    bool      // the engine closed a pipe: nothing is demanded of later answers
 	cutAt  []bool    // per P/Q/M item: cut when it was asked
+	dead   []bool    // per P/Q/M item: the player asked belongs to an earlier game
 }
 
 func (s *c17Sess) ask(kind string, player int, dl, tc string, a *aboard) {
@@ -2038,6 +2040,7 @@ func (s *c17Sess) ask(kind string, player int, dl, tc string, a *aboard) {
 	s.tc = append(s.tc, tc)
 	s.goAns = append(s.goAns, "")
 	s.cutAt = append(s.cutAt, s.cut)
+	s.dead = append(s.dead, false)
 }
 
 func (s *c17Sess) rule(kind string, n int, flags string, out string) {
@@ -2295,6 +2298,7 @@ func c17GenSessions(c *ctx) []*c17Sess {
 			pl = games - 1 // the live one after all
 		}
 		s.ask(kind, pl, "-", "-", ps[0])
+		s.dead[len(s.dead)-1] = pl != games-1
 		ss = append(ss, s)
 	}
 	// (e) the handshake: NewClient against engines that answer `tei` oddly
@@ -2410,6 +2414,7 @@ func c17Clients(c *ctx, bin string) {
 		qi := 0 // index into asked
 		ri := 1 // index into results (0 is N:...)
 		bad := false
+		gErr := false
 		if results[0] != "N:ok" {
 			c.stat("client_handshake_"+strings.ReplaceAll(results[0], ":", "_"), 1)
 		}
@@ -2426,6 +2431,9 @@ func c17Clients(c *ctx, bin string) {
 			res := results[ri]
 			ri++
 			if it[0] == 'G' {
+				if res != "G:ok" {
+					gErr = true // NewGame failed after bumping the client's game number: the current player is dead too (not judged)
+				}
 				if res == "G:ok" {
 					if l, ok := next(); !ok || l != "teinewgame "+it[2:] {
 						c.printf("ORACLE-FAIL client-protocol | %s | NewGame(%s) wrote %q | teinewgame %s\n", in, it[2:], l, it[2:])
@@ -2441,6 +2449,12 @@ func c17Clients(c *ctx, bin string) {
 				c.stat("client_result_ok", 1)
 			} else {
 				c.stat("client_result_"+strings.ReplaceAll(strings.SplitN(res, ":", 2)[1], ":", "_"), 1)
+			}
+			// a player of an earlier game must not be served: nothing may be written for it
+			if !gErr && s.dead[qi-1] != (res == "P:panic:dead") {
+				c.printf("ORACLE-FAIL client-dead-player | %s | request %d (player of an earlier game: %v) returned %s | only the player of the client's current game is served; the others panic before anything is written\n", in, qi, s.dead[qi-1], res)
+				bad = true
+				continue
 			}
 			if res == "P:panic:dead" || res == "P:err:sendpos" || res == "P:panic:getmove-sendpos" {
 				continue // nothing reached the engine
